@@ -32,6 +32,7 @@ type ConCfg struct {
 	PCTDepth   int      `json:"pct_depth"`
 	DilateP    float64  `json:"dilate_p"`
 	Background bool     `json:"background"`
+	Reopen     bool     `json:"reopen,omitempty"` // after the final Shutdown() open the files again and compare (C09)
 	MapPermute bool     `json:"map_permute"`
 	MaxSteps   int64    `json:"max_steps"`
 	Replay     []uint16 `json:"-"`
@@ -62,6 +63,9 @@ func genConCfg(r *rng, workload string, tier string) ConCfg {
 	c.Background = r.Chance(0.5)
 	c.MapPermute = r.Chance(0.5)
 	c.MaxSteps = 600_000
+	if workload == "c12a" || workload == "c12b" {
+		c.Reopen = r.Chance(0.5)
+	}
 	if workload == "txn" || workload == "txnwal" {
 		// short runs (about 1-3 thousand steps): PCT with change points inside the run finds
 		// orderings that need one task to be held back across another task's whole transaction
@@ -100,7 +104,11 @@ type ConRun struct {
 	Stats    map[string]int
 	Final    [][]any
 	SetupErr string
-	TxnHist  json.RawMessage
+	// C09 part of the c12 workloads
+	Reopened   [][]any
+	ReopenErr  string
+	ReopenDone bool
+	TxnHist    json.RawMessage
 }
 
 func (cr *ConRun) stat(k string, n int) {
@@ -243,6 +251,25 @@ func (cr *ConRun) runC12() {
 		}
 		s.DB.Shutdown()
 		s.closed = true
+		if cfg.Reopen && cr.SetupErr == "" {
+			// C09 under concurrency: Shutdown() was called while the checkpoint / statistics tasks may be in
+			// the middle of a pass; whatever they do afterwards, the reopened database shows the same rows
+			s2, pi := OpenSUT(path, cfg.Frames)
+			if pi != nil {
+				cr.ReopenErr = "reopen after Shutdown() panicked: " + pi.String()
+				return
+			}
+			err, rows := s2.DB.ExecuteSQL("SELECT k, v FROM t WHERE k >= 0 OR k < 0;")
+			if err != nil {
+				cr.ReopenErr = "select after reopen: " + err.Error()
+			}
+			for _, r := range rows {
+				cr.Reopened = append(cr.Reopened, append([]any{}, r...))
+			}
+			cr.ReopenDone = true
+			s2.DB.Shutdown()
+			s2.closed = true
+		}
 	})
 	// (when the simulation was aborted the instance is abandoned: its latches may be held by killed tasks)
 	if simrt.DumpStacks && cr.Res.Outcome != "ok" {
@@ -311,6 +338,17 @@ func (cr *ConRun) check() {
 		cr.checkLinearizable(all)
 	default:
 		cr.checkExactlyOnce(all)
+	}
+	if cr.Cfg.Reopen {
+		cr.stat("reopen_after_concurrent_shutdown", 1)
+		if cr.ReopenErr != "" {
+			cr.viol("C09", "reopen-after-shutdown-under-concurrency", cr.ReopenErr)
+		} else if cr.ReopenDone {
+			a, b := canonRows(cr.Final), canonRows(cr.Reopened)
+			if !sameStrings(a, b) {
+				cr.viol("C09", "reopen-after-shutdown-under-concurrency", "rows before Shutdown() vs after reopen: "+diffStrings(a, b))
+			}
+		}
 	}
 }
 
@@ -515,9 +553,11 @@ func workloadFor(prop string, r *rng) string {
 			return "c12a"
 		}
 		return "c12b"
+	case "C09":
+		return "c12b"
 	case "C08":
 		return "txnwal"
-	case "C04", "C05":
+	case "C04", "C05", "C03":
 		return "txn"
 	case "C16":
 		return "lock"
@@ -535,6 +575,14 @@ func runConSim(run int, seed uint64) RunReport {
 	rep := RunReport{}
 	wr := newRng(simrt.Mix(seed, 1))
 	cfg := genConCfg(wr, workloadFor(flProp, wr), flTier)
+	if flProp == "C09" {
+		// clean shutdown while the engine's own tasks are alive, then reopen
+		cfg.Reopen = true
+		cfg.Background = true
+		if cfg.Clients > 12 {
+			cfg.Clients = 2 + wr.Intn(5)
+		}
+	}
 	cr := newConRun(seed, cfg, "n")
 	defer os.RemoveAll(cr.Dir)
 	liveCfg = &cr.Cfg
@@ -719,6 +767,14 @@ func (cr *ConRun) runTxn() {
 		cr.stat("txn_duel_runs", 1)
 	} else {
 		progs = genProgs(wr, nTxn, rows, &tok, &nk, !wal && wr.Chance(0.3))
+	}
+	if flProp == "C03" {
+		// abort-heavy: explicit aborts at the end of programs on top of the aborts by lock conflict
+		for i := range progs {
+			if wr.Chance(0.4) {
+				progs[i].Abort = true
+			}
+		}
 	}
 	hist := make([]HTxn, nTxn)
 	var rec *disk.SimRecorder
@@ -906,6 +962,9 @@ func (cr *ConRun) runTxn() {
 	cr.Viol = append(cr.Viol, o.c04()...)
 	cr.Viol = append(cr.Viol, o.c05()...)
 	if v := finalStateCheck(rows, hist, final); v != nil {
+		cr.Viol = append(cr.Viol, *v)
+	}
+	if v := abortTraceCheck(rows, hist, final); v != nil {
 		cr.Viol = append(cr.Viol, *v)
 	}
 }
